@@ -94,6 +94,7 @@ class _Normalizer:
                 self._each_function(m, self._fuse_in_function)
                 if self.stats['inlined_calls'] + self.stats.get('fused_generators', 0) == before:
                     break
+            self._each_function(m, self._yield_from)
             self._each_function(m, self._generator_form)
             self._each_function(m, self._augment_function)
             self._each_function(m, self._desugar_function)
@@ -173,6 +174,39 @@ class _Normalizer:
             T().visit(fnode)
         finally:
             fnode.args = saved
+
+    # ------------------------------------------------------------------ 1e. yield from
+    def _yield_from(self, fnode, cls, local):
+        """statement-level ``yield from E`` -> ``for item in E: yield item`` (send()/throw() delegation is not used by the
+        package's consumers; the items and their order are the same)"""
+        k = [0]
+
+        def walk(body):
+            out = []
+            for st in body:
+                if isinstance(st, (ast.FunctionDef, ast.AsyncFunctionDef, ast.ClassDef)):
+                    out.append(st)
+                    continue
+                for fld in ('body', 'orelse', 'finalbody'):
+                    v = getattr(st, fld, None)
+                    if isinstance(v, list) and v and isinstance(v[0], ast.stmt):
+                        setattr(st, fld, walk(v))
+                if isinstance(st, ast.Try):
+                    for h in st.handlers:
+                        h.body = walk(h.body)
+                if isinstance(st, ast.Expr) and isinstance(st.value, ast.YieldFrom):
+                    k[0] += 1
+                    name = '__yf%d' % k[0]
+                    loop = ast.For(target=ast.Name(id=name, ctx=ast.Store()), iter=st.value.value,
+                                   body=[ast.Expr(value=ast.Yield(value=ast.Name(id=name, ctx=ast.Load())))], orelse=[])
+                    ast.copy_location(loop, st)
+                    ast.fix_missing_locations(loop)
+                    out.append(loop)
+                    self.stats['yield_from'] = self.stats.get('yield_from', 0) + 1
+                else:
+                    out.append(st)
+            return out
+        fnode.body = walk(fnode.body)
 
     # ------------------------------------------------------------------ 1d. one spelling for "this function produces these items"
     def _generator_form(self, fnode, cls, local):
